@@ -662,3 +662,14 @@ pub fn flat_any<T, CE, E>(r: Result<Result<T, CE>, Result<E, InvokeError>>) -> R
         Err(Err(e)) => Err(format!("invoke:{:?}", e)),
     }
 }
+
+/// The account address that shares its 32 identifying bytes with the contract address `a`: a
+/// different address, for which nobody can sign in the harness.
+pub fn twin_of(env: &Env, a: &Address) -> Address {
+    use soroban_sdk::xdr::{AccountId, PublicKey, ScAddress, Uint256};
+    match sc_addr(a) {
+        ScAddress::Contract(h) => addr_of(env, &ScAddress::Account(AccountId(PublicKey::PublicKeyTypeEd25519(Uint256(h.0))))),
+        other => addr_of(env, &other),
+    }
+}
+
